@@ -93,3 +93,59 @@ def always_reraises(h):
 
 def segment(module, node):
     return source().segment(module, node)
+
+
+_LIMIT_REACH = None
+
+
+def limit_raisers():
+    """simple names of functions that may raise a limit error: they raise TimeLimitError/MemoryLimitError/
+    RegexTimeoutError themselves, call a function that may, or call an unknown callable (callbacks)"""
+    global _LIMIT_REACH
+    if _LIMIT_REACH is not None:
+        return _LIMIT_REACH
+    funcs = {}
+    for mod, mi in source().modules.items():
+        for n in ast.walk(mi.tree):
+            if isinstance(n, ast.FunctionDef):
+                funcs.setdefault(n.name, []).append(n)
+    reach = set()
+    for name, nodes in funcs.items():
+        for f in nodes:
+            for r in ast.walk(f):
+                if isinstance(r, ast.Raise) and r.exc is not None and any(k in ast.unparse(r.exc) for k in ("TimeLimitError", "MemoryLimitError", "RegexTimeoutError")):
+                    reach.add(name)
+    changed = True
+    while changed:
+        changed = False
+        for name, nodes in funcs.items():
+            if name in reach:
+                continue
+            for f in nodes:
+                if called_names(f) & reach:
+                    reach.add(name)
+                    changed = True
+                    break
+    _LIMIT_REACH = reach
+    return reach
+
+
+def called_names(node):
+    out = set()
+    for c in ast.walk(node):
+        if isinstance(c, ast.Call):
+            if isinstance(c.func, ast.Attribute):
+                out.add(c.func.attr)
+            elif isinstance(c.func, ast.Name):
+                out.add(c.func.id)
+    return out
+
+
+OPAQUE_CALLS = {"callback", "method", "fn", "_call_fn", "callee", "getter", "setter", "comparator", "poll_callback", "_fn"}
+
+
+def may_raise_limit_error(module, stmts):
+    names = set()
+    for s_ in stmts:
+        names |= called_names(s_)
+    return bool(names & limit_raisers()) or bool(names & OPAQUE_CALLS)
